@@ -33,6 +33,7 @@ extern int g_num_ovf;
 extern uintmax_t g_num_mag;
 extern size_t g_num_end;
 extern int g_num_base;		/* base actually used (after prefix / base-0 resolution) */
+extern int g_num_ndig;		/* number of digits in the subject sequence: 0, 1, or 2 meaning "two or more" */
 extern int g_num_reqbase;	/* the base argument the conversion function was called with (0 for strtod) */
 extern const char * g_num_sptr;	/* the nptr argument the conversion function was called with */
 /* strtod only */
@@ -50,7 +51,7 @@ extern size_t g_num_slen;
 #define NUM_MAXLEN 24		/* bound on the size of the symbolic string *object* (strlen < NUM_MAXLEN) */
 #endif
 
-#define NUM_GHOSTS g_num_calls, g_num_nd, g_num_neg, g_num_ovf, g_num_mag, g_num_end, g_num_base, g_num_reqbase, g_num_sptr, \
+#define NUM_GHOSTS g_num_calls, g_num_nd, g_num_neg, g_num_ovf, g_num_mag, g_num_end, g_num_base, g_num_ndig, g_num_reqbase, g_num_sptr, \
 	g_num_fval, g_num_frange
 
 /* executable scan shared by the three integer entry points (and by native cross-checks) */
